@@ -42,7 +42,10 @@ GEN_USERS = {"C03", "C12", "C13", "C16", "C18"}
 def cover_flags():
     """development aid (VERIF_COVER=1): build the executors with statement counters for the library's packages"""
     if os.environ.get("VERIF_COVER") == "1":
-        return ["-cover", "-coverpkg=github.com/hprose/hprose-golang/v3/..."]
+        # wildcard patterns do not reach a module that is only a (replaced) dependency: list its packages
+        rc, out, err = sh(["go", "list", "./..."], cwd=REPO, env=GOENV, timeout=300)
+        pkgs = [l for l in out.split() if l.startswith("github.com/hprose/")]
+        return ["-cover", "-coverpkg=" + ",".join(pkgs)]
     return []
 
 
